@@ -108,7 +108,9 @@ func cleanupFilePos(tfile *token.File, cl engine.Changelog, comments []*ast.Comm
 			continue
 		}
 
-		for i := tfile.Line(dr.Start); i < tfile.Line(dr.End); i++ {
+		// Line numbers in terms of the file itself, ignoring //line directives:
+		// that is what MergeLine works with.
+		for i := tfile.PositionFor(dr.Start, false).Line; i < tfile.PositionFor(dr.End, false).Line; i++ {
 			if i > 0 {
 				linesToDelete[i] = struct{}{}
 			}
